@@ -95,7 +95,14 @@ theorem v30_always_first :
 
 /-- the spec file is written only after generation (incl. validation) succeeded -/
 theorem write_after_success :
-    let evs := eventsOf "generator/swagen/spec_manager.go:GenerateAndOutputSpec"
-    guarded evs "GenerateSpec" = true ∧ before evs "GenerateSpec" "os.WriteFile" = true := by decide +kernel
+    (let evs := eventsOf "generator/swagen/spec_manager.go:GenerateAndOutputSpec"
+     guarded evs "GenerateSpec" = true ∧ before evs "GenerateSpec" "OutputSpec" = true) ∧
+    (let evs := eventsOf "generator/swagen/spec_manager.go:OutputSpec"
+     before evs "os.MkdirAll" "os.WriteFile" = true ∧ guarded evs "os.MkdirAll" = true) ∧
+    -- the combined command generates (and validates) the document BEFORE the routes file is written and writes
+    -- the document last
+    (let evs := eventsOf "cmd/entrypoint.go:GenerateSpecAndRoutes"
+     guarded evs "swagen.GenerateSpec" = true ∧ before evs "swagen.GenerateSpec" "routes.GenerateRoutes" = true ∧
+     guarded evs "routes.GenerateRoutes" = true ∧ before evs "routes.GenerateRoutes" "swagen.OutputSpec" = true) := by decide +kernel
 
 end Gleece.Order
